@@ -35,7 +35,7 @@ Section JudgePieces2.
     u_judge m e p (i, ((acb, acanc, ainv, ccb, adec), ((k, r), (ccn, (code, v, e1, hh, f1, f2))))) =
     if negb (N.eqb k 2) then (false, false, false, None, [])
     else (N.eqb code 6, N.eqb code 6 && nz hh, j_inv m e p i acb ainv code, j_adec i r acanc ainv ccb adec code,
-          (j_c4 m e p i acb code v ++ j_c5 m e p i acb ainv code hh ++ j_rest i r acanc ainv ccb adec ccn code v)%list).
+          (j_c4 m e p i acb code v ++ j_c5 m e p i acb ainv code hh f2 ++ j_rest i r acanc ainv ccb adec ccn code v)%list).
   Proof. reflexivity. Qed.
 
   Lemma j_rest_nil i r acanc ainv ccb adec ccn code v :
@@ -131,7 +131,7 @@ Section AccAll.
     N.eqb code 6 = is_cb (cpcv (getc s' i)) /\
     (is_cb (cpcv (getc s' i)) = true -> nz hh = ac_cbcanc (getc s' i) || ccanc (getc s' i)) /\
     j_c4 m e p i (nth i (m_acb m) false) code v = [] /\
-    j_c5 m e p i (nth i (m_acb m) false) (nth i (m_ainv m) false) code hh = [] /\
+    j_c5 m e p i (nth i (m_acb m) false) (nth i (m_ainv m) false) code hh f2 = [] /\
     (is_cb (cpcv (getc s' i)) = true ->
      (j_inv m e p i (nth i (m_acb m) false) (nth i (m_ainv m) false) code = true <-> ac_nonce (getc s' i) <> ac_snap (getc s' i))).
   Proof.
@@ -140,7 +140,7 @@ Section AccAll.
               N.eqb code 6 = is_cb (cpcv (getc s' i)) /\
               (is_cb (cpcv (getc s' i)) = true -> nz hh = ac_cbcanc (getc s' i) || ccanc (getc s' i)) /\
               j_c4 m e p i (nth i (m_acb m) false) code v = [] /\
-              j_c5 m e p i (nth i (m_acb m) false) (nth i (m_ainv m) false) code hh = [] /\
+              j_c5 m e p i (nth i (m_acb m) false) (nth i (m_ainv m) false) code hh f2 = [] /\
               (is_cb (cpcv (getc s' i)) = true ->
                (j_inv m e p i (nth i (m_acb m) false) (nth i (m_ainv m) false) code = true <-> ac_nonce (getc s' i) <> ac_snap (getc s' i)))).
     { intros E1 E2. unfold j_c4, j_c5, j_started. rewrite E1, E2. cbn [andb negb orb fails].
@@ -153,8 +153,8 @@ Section AccAll.
     - (* a fresh invocation *)
       assert (Hs : nth i (m_acb m) false = false \/ exists res, e0 = ECbReturn i res).
       { apply orb_true_iff in St. destruct St as [St|St]; [left; now apply negb_true_iff | right; now apply Mine]. }
-      destruct (started_fresh m h e e0 rets Hd HAo i Hi Hk ltac:(now rewrite Ep) Hs) as [Fc Fn].
-      destruct (HR_cur_val h' i v0 HR' Hi Hk Ep Fc) as [Er [Ev Ee]]. cbn [hs] in Er, Ev, Ee.
+      destruct (started_fresh m h e e0 rets HRh Hd HAo i Hi Hk ltac:(now rewrite Ep) Hs) as [Fc [Fn Fw]].
+      destruct (HR_cur_val h' i v0 HR' Hi Hk Ep Fc Fw) as [Er [Ev Ee]]. cbn [hs] in Er, Ev, Ee.
       rewrite Ecur'. unfold cur_of. rewrite Er, Ee. rewrite (vofe_cur m h e e0 rets HCh HP Hd Hem Er Ee), <- Ev, !N.eqb_refl. cbn [negb orb andb fails]. split; [reflexivity|]. split; [reflexivity|]. intros _. split; [intros Hx; discriminate Hx | intros Hx; contradiction].
     - (* the invocation was running before this event and has not returned *)
       apply orb_false_iff in St. destruct St as [Sa Sm]. apply negb_false_iff in Sa.
@@ -187,12 +187,18 @@ Section AccAll.
           assert (Hk1 : ck (getc s1 i) = CKAccess) by (now rewrite <- ck_s1).
           pose proof (settle_in_cb s1 i Hi1 Hk1 ltac:(now rewrite S1, Ep0)) as Ey.
           destruct (sect_acf s e0 i Hl (dec_not_cons_step h e e0 rets Hd) Hns) as [A|A].
-          + destruct (acf_fields _ _ A) as [_ [_ [_ [A4 [A5 _]]]]]. rewrite Ey in Hne. congruence.
+          + destruct (acn_fields _ _ A) as [_ [_ [_ [A4 A5]]]]. rewrite Ey in Hne. congruence.
           + rewrite <- Ey in A. congruence. }
       split.
       + destruct (nth i (m_ainv m) false || _) eqn:Hinv; [|reflexivity]. pose proof (proj1 Moved eq_refl) as Mv.
         pose proof (HR_acc_ok h' i HR') as [_ K1]. cbn [hs] in K1. rewrite Ep in K1. destruct K1 as [K1 _].
-        destruct (ac_cbcanc (getc s' i)) eqn:Ecb; [reflexivity | exfalso; exact (Mv (K1 eq_refl))].
+        (* invalidated: the context is cancelled, or the watcher of the invocation is parked before its cbCancel() *)
+        destruct (ac_wpark (getc s' i)) eqn:Ewp; [reflexivity|].
+        assert (Efp : N.eqb (match ww_firepc (getc s' i) with Some RGate => 1 | Some RDone => 5 | None => 0 end) 1 = true \/
+                      N.eqb (match ww_firepc (getc s' i) with Some RGate => 1 | Some RDone => 5 | None => 0 end) 1 = false)
+          by (destruct (N.eqb _ 1); auto).
+        destruct Efp as [Efp|Efp]; rewrite Efp; [reflexivity|]. cbn [negb andb].
+        destruct (ac_cbcanc (getc s' i)) eqn:Ecb; [reflexivity | exfalso; exact (Mv (K1 eq_refl eq_refl))].
       + intros _. exact Moved.
   Qed.
 
